@@ -78,6 +78,9 @@ const DISABLED_CFG: [&str; 2] = ["#[cfg(any())]", "#[cfg(not(all()))]"];
 
 fn decorate_fn(t: &mut Tape, mk: &mut Markers, f: &mut gen::FnSrc, allow_disabled: bool, disabled: &mut Vec<String>) {
     f.attrs = mk.some(t, 3);
+    if f.quals.is_empty() && t.chance(1, 3) {
+        f.quals = "async ".into();
+    }
     match t.weighted(&[6, 1, if allow_disabled { 2 } else { 0 }]) {
         0 => {}
         1 => {
@@ -225,6 +228,14 @@ pub fn check(c: &Case) -> Result<&'static str, String> {
                     _ => None,
                 })
                 .ok_or("no `impl Tr for Impl<T>` in the expansion")?;
+            let out_trait = file
+                .items
+                .iter()
+                .find_map(|i| match i {
+                    syn::Item::Trait(t) if t.ident == "Tr" => Some(t),
+                    _ => None,
+                })
+                .ok_or("no `trait Tr` in the expansion")?;
             for name in &c.mirrored_methods {
                 let want = input
                     .items
@@ -236,6 +247,18 @@ pub fn check(c: &Case) -> Result<&'static str, String> {
                     .iter()
                     .find_map(|i| if let syn::ImplItem::Fn(f) = i { (f.sig.ident == name).then(|| attrs_toks(&f.attrs)) } else { None })
                     .ok_or_else(|| format!("delegating impl has no method `{name}`"))?;
+                let on_trait = out_trait
+                    .items
+                    .iter()
+                    .find_map(|i| if let syn::TraitItem::Fn(f) = i { (f.sig.ident == name).then(|| attrs_toks(&f.attrs)) } else { None })
+                    .ok_or_else(|| format!("the emitted trait has no method `{name}`"))?;
+                if on_trait != want {
+                    return Err(format!(
+                        "attributes of trait method `{name}` did not stay on it: written [{}], emitted trait method has [{}]",
+                        want.iter().map(|a| tok::render(a)).collect::<Vec<_>>().join(" "),
+                        on_trait.iter().map(|a| tok::render(a)).collect::<Vec<_>>().join(" ")
+                    ));
+                }
                 if got != want {
                     return Err(format!(
                         "attributes of trait method `{name}` are not mirrored on the delegating method: trait has [{}], delegating method has [{}]",
